@@ -19,6 +19,7 @@ func init() {
 			{"COMPARE-TABLES", ruleCompareTables},
 			{"PANIC-ACCESSOR", rulePanicAccessor},
 			{"CONNOR-TABLE", ruleConnorTable},
+			{"ORDER-DIRECTION-CARRIED", func(c *eng.Ctx) { ruleOrderDirectionCarried(c, "ORDER-DIRECTION-CARRIED") }},
 			{"MINMAX-TABLE", ruleMinMaxTable},
 			{"AGG-PIPELINE", ruleAggPipeline},
 			{"AGG-SIBLING-CASES", ruleAggSiblingCases},
